@@ -9,7 +9,13 @@ REPLAY = "replay/c27.py"
 def build(reg):
     autosave.register(reg, "C27")
     return dict(
-        targets=[f"{autosave.IMPL}:MPSBackendImpl.save_simulation"],
+        targets=[f"{autosave.IMPL}:MPSBackendImpl.save_simulation",
+                 "emu_mps.mps_backend:MPSBackend.resume[after a crash]"],
+        explanation="Writer: after EVERY file-system effect of save_simulation (each is a crash point) the advertised "
+                    "file holds a complete snapshot. Reader: from any directory state the writer can leave behind "
+                    "(advertised file complete, .new/.bak absent, truncated or complete) MPSBackend.resume loads a complete "
+                    "snapshot from the advertised file and every file-system effect it performs before continuing the run "
+                    "keeps the advertised file complete.",
         not_decided=["power-loss durability (fsync of file and directory): the ghost file system is the "
                      "process-crash model of POSIX rename/replace/remove, not a disk model"],
         trusted=["POSIX: os.rename/os.replace within one directory replace the target atomically; a file "
@@ -19,7 +25,14 @@ def build(reg):
 
 
 # negative controls (thorough tier): (name, file, old text, new text)
-CONTROLS = [('rename the old snapshot away first (the repaired defect)',
+CONTROLS = [('resume finishes an interrupted autosave by renaming a non-empty .new over the advertised file',
+  'emu_mps/mps_backend.py',
+  '        if not autosave_file.is_file():\n            raise ValueError(f"Not a file: {autosave_file}")',
+  '        pending = autosave_file.with_suffix(".new")\n'
+  '        if pending.is_file() and pending.stat().st_size > 0:\n'
+  '            os.replace(pending, autosave_file)\n'
+  '        if not autosave_file.is_file():\n            raise ValueError(f"Not a file: {autosave_file}")'),
+ ('rename the old snapshot away first (the repaired defect)',
   'emu_mps/mps_backend_impl.py',
   '        os.replace(basename.with_suffix(".new"), basename)',
   '        if basename.is_file():\n'
